@@ -527,6 +527,23 @@ func knownClass(d *DataJ, q QueryJ) string {
 		steps := q.steps()
 		for _, u := range sels {
 			if u.rng == 0 {
+				// K4c (same cause as K4b, instant vector selector): the query end is not on the step grid, a stored record
+				// of the series ends after the last evaluation timestamp and the next record begins not after the end:
+				// the sample of the last step is lost (the carried-over "previous sample" is the one after the step)
+				for si := range d.Series {
+					se := &d.Series[si]
+					if se.Labels["__name__"] != u.metric {
+						continue
+					}
+					recs := recordsOf(d, se)
+					for ri := 1; ri < len(recs); ri++ {
+						prev := recs[ri-1]
+						a, t0 := prev[len(prev)-1].T+u.off, recs[ri][0].T+u.off
+						if a > steps[len(steps)-1] && t0 <= q.End {
+							return "record_starts_between_last_step_and_end"
+						}
+					}
+				}
 				continue
 			}
 			for si := range d.Series {
@@ -546,7 +563,8 @@ func knownClass(d *DataJ, q QueryJ) string {
 					}
 					// K4b: the query end is not on the step grid and a later stored record of the series has its first
 					// sample after the last evaluation timestamp but not after the end: the last window is lost
-					if gapFns[u.fn] && ri > 0 && len(rec) > 0 {
+					// (sum/avg/min/max/count/last_over_time, irate, idelta; rate, increase, delta, stddev/stdvar/present_over_time are right)
+					if (gapFns[u.fn] || u.fn == "irate" || u.fn == "idelta") && ri > 0 && len(rec) > 0 {
 						if t0 := rec[0].T + u.off; t0 > steps[len(steps)-1] && t0 <= q.End {
 							return "record_starts_between_last_step_and_end"
 						}
